@@ -131,8 +131,11 @@ AEHandle(s, m) ==
       s2   == [s1 EXCEPT !.leader = m.leader]
       resp1 == [resp0 EXCEPT !.term = IF bump THEN m.term ELSE s.term]
       le   == LastEntry(s2)
-      prevKnown == m.prev = 0 \/ m.prev = le[1] \/ m.prev \in DOMAIN s2.log
-      prevTerm  == IF m.prev = le[1] THEN le[2] ELSE IF m.prev \in DOMAIN s2.log THEN s2.log[m.prev][1] ELSE 0
+      \* the snapshot boundary is consulted first (it may no longer be in the store although the
+      \* log continues past it), then the cached tail, then the store
+      prevKnown == m.prev = 0 \/ m.prev = s2.lsnap[1] \/ m.prev = le[1] \/ m.prev \in DOMAIN s2.log
+      prevTerm  == IF m.prev = s2.lsnap[1] THEN s2.lsnap[2]
+                   ELSE IF m.prev = le[1] THEN le[2] ELSE IF m.prev \in DOMAIN s2.log THEN s2.log[m.prev][1] ELSE 0
   IN
   IF m.prev > 0 /\ (~prevKnown \/ prevTerm # m.prevterm)
   THEN [st |-> s2, resp |-> [resp1 EXCEPT !.nobackoff = TRUE]]
@@ -172,10 +175,15 @@ ISHandle(s, m, mono, trailing) ==
       s2   == [s1 EXCEPT !.leader = m.leader, !.applied = m.idx, !.lsnap = <<m.idx, m.sterm>>,
                           !.cl = m.cfg, !.cli = m.cfgidx, !.cc = m.cfg, !.cci = m.cfgidx]
       first == LogFirst(s2.log)
-      rng  == IF mono THEN (IF DOMAIN s2.log = {} THEN <<0, 0>>
+      \* a monotonic store is wiped unless the log holds the snapshot's last entry (then a prefix
+      \* deletion cannot leave a gap); after a wipe the snapshot is the cached last entry
+      holds == m.idx \in DOMAIN s2.log /\ s2.log[m.idx][1] = m.sterm
+      wipe == mono /\ ~holds
+      rng  == IF wipe THEN (IF DOMAIN s2.log = {} THEN <<0, 0>>
                             ELSE CompactRange(first, LogLast(s2.log), LogLast(s2.log), 0))
               ELSE CompactRange(first, m.idx, s2.llog[1], trailing)
       lg   == IF rng = <<0, 0>> THEN s2.log ELSE DelRange(s2.log, rng[1], rng[2])
-  IN [st |-> [s2 EXCEPT !.log = lg], resp |-> [term |-> s1.term, ok |-> TRUE]]
+      s3   == IF wipe THEN [s2 EXCEPT !.llog = <<m.idx, m.sterm>>] ELSE s2
+  IN [st |-> [s3 EXCEPT !.log = lg], resp |-> [term |-> s1.term, ok |-> TRUE]]
 
 =============================================================================
